@@ -70,6 +70,14 @@ def build_c02(kinds, styles, want_choice, corruption, rng=None, sep_prob=0.0):
     legit = {}
     last_acc = ''
     for j, g in enumerate(groups):
+        if isinstance(g.raises, tuple):
+            # an expected exception: the want is its traceback; what the statement wrote before raising is logged for
+            # that part but is not offered to a later want, and later wants see only what came after it
+            g.want = exc_want('exact', g.raises[0], g.raises[1])
+            chosen[j] = 'traceback'
+            since = j + 1
+            last_acc = ''
+            continue
         wc = want_choice[j]
         if wc is None:
             continue
@@ -93,8 +101,8 @@ def build_c02(kinds, styles, want_choice, corruption, rng=None, sep_prob=0.0):
     desc = {'kinds': kinds, 'wants': chosen}
     if corruption is not None:
         j, how = corruption
-        if groups[j].want is None:
-            return None
+        if groups[j].want is None or j not in legit:
+            return None      # (an expected-exception want is not corrupted here: that is C03's table)
         earlier = [g.val for g, r in zip(groups[:j], ref) if r['runs'] and g.is_expr and g.val not in (None, 'RAISES', 'None')]
         cw = corrupt(groups[j].want, how, stale.get(j, ''), earlier[-1] if earlier else None)
         if cw is None:
@@ -135,6 +143,9 @@ def c02_exhaustive(maxlen):
 def c02_random(rng):
     n = rng.randint(1, 8)
     kinds = [rng.choice(gd.PLAIN_KINDS + ['comment', 'await', 'awaitexpr'] if rng.random() < 0.9 else ['comment']) for _ in range(n)]
+    if n >= 2 and rng.random() < 0.3:
+        # a statement that writes and then raises its expected exception, somewhere before the end
+        kinds[rng.randrange(n - 1)] = rng.choice(['printraise', 'raise', 'callraise'])
     styles = [rng.choice(['new', 'old']) for _ in range(n)]
     wc = [rng.choice([None, None, 0, 1, 2]) for _ in range(n)]
     corruption = None
